@@ -26,7 +26,7 @@ NEEDS = {"KW": ["AES_KEY_WRAP"], "KWP": ["AES_KEY_WRAP_PAD"], "CBC": ["AES_CBC"]
 TC = dict(MaxK="8", MaxB="4", Kinds=tla_set(ALLKINDS), WrapMechs='{"KW", "KWP", "CBC", "CBCPAD", "RSA", "OAEP"}',
           DerMechs='{"ECB", "CBCD", "CATBD", "CATDB", "DH", "ECDH"}', Datas="{0, 1, 2, 3, 4}", Modes=tla_set(ALLMODES),
           RModes=tla_set(ALLR), Chunks="{0, 1, 2, 3, 4, 5}", ImpIdx="{1, 2}", WTmpls=tla_set(ALLTMPLS), UTmpls=tla_set(ALLTMPLS),
-          Acts='{"imp", "impt", "gen", "wrap", "damage", "unwrap", "unwrapt", "unwrapas", "derive", "value", "crypt", "digest", "rcrypt"}',
+          Acts='{"imp", "impt", "gen", "wrap", "damage", "unwrap", "unwrapt", "unwrapas", "derive", "value", "valuer", "crypt", "digest", "rcrypt"}',
           Dev="{}")
 
 
@@ -53,7 +53,7 @@ def wrap_graphs(quick, lib, extra, common=None):
     def ok(names):
         return [n for n in names if common is None or all(m in common for m in NEEDS[n])]
     w = 500 if quick else 6000
-    A = ["imp", "wrap", "damage", "unwrap", "unwrapas", "value"]
+    A = ["imp", "wrap", "damage", "unwrap", "unwrapas", "value", "valuer"]
     gs = [dict(name="kw", constants=C(["aes16", "gen20", "aes32"], A, wrap=ok(["KW", "KWP"])), maxwalks=w),
           dict(name="kw2", constants=C(["aes32", "des3", "gen16"], A + ["gen"], wrap=ok(["KW", "KWP"])), maxwalks=w // 2),
           dict(name="cbc", constants=C(["aes16", "gen20", "des3"], A, wrap=ok(["CBC", "CBCPAD"])), maxwalks=w),
@@ -67,7 +67,7 @@ def wrap_graphs(quick, lib, extra, common=None):
                                          ut=ALLTMPLS), maxwalks=w),
           dict(name="tmpl-rsa", constants=C(["rsa", "aes16"], ["impt", "two", "wrap", "unwrapt"], wrap=ok(["OAEP", "KWP"]),
                                             wt=["none", "encF", "ktAes"], ut=["none", "encF", "ktAes"]), maxwalks=w // 2),
-          dict(name="derive", constants=C(["aes16", "aes32", "des3", "gen20"], ["imp", "derive", "value"],
+          dict(name="derive", constants=C(["aes16", "aes32", "des3", "gen20"], ["imp", "derive", "value", "valuer"],
                                           der=ok(["ECB", "CBCD", "CATBD", "CATDB"]), datas=(1, 2, 3)), maxwalks=w),
           dict(name="pkderive", constants=C(["dh", "ec", "gen20", "aes16", "gen64"], ["imp", "derive", "value"], maxk=2,
                                             der=ok(["DH", "ECDH"]), datas=(1, 2, 3)), maxwalks=w)]
